@@ -172,4 +172,22 @@ def g_report(repo):
     return g
 
 
-GROUPS = {'eval_blocks': g_eval_blocks, 'report': g_report, 'merge': g_merge, 'status': g_status, 'exit': g_exit, 'eval': g_eval, 'eval_disp': g_eval_disp}
+def g_validate(repo):
+    g = GroupBuild('validate', repo)
+    g.raw('prelude_common.rs')
+    g.raw('prelude_validate.rs')
+    V = CMD + 'validate.rs'
+    g.type(RULES + 'errors.rs', 'Error', derive=None, opaque_payloads='ExtError')
+    g.type(RULES + 'mod.rs', 'Status')
+    g.type(V, 'Type')
+    g.type(V, 'OutputFormatType')
+    g.type(V, 'RuleFileInfo', derive=None)
+    for c in ('FAILURE_STATUS_CODE', 'SUCCESS_STATUS_CODE', 'ERROR_STATUS_CODE'):
+        g.const(CMD + 'mod.rs', c)
+    g.fn(None, V, 'parse_rules', spec='parse_rules.spec', stub=True)
+    g.fn(None, V, 'evaluate_against_data_input', spec='evaluate_against_data_input.spec', stub=True)
+    g.fn('U-evalrule', V, 'evaluate_rule', spec='evaluate_rule.spec', props=['C06', 'C08'])
+    return g
+
+
+GROUPS = {'validate': g_validate, 'eval_blocks': g_eval_blocks, 'report': g_report, 'merge': g_merge, 'status': g_status, 'exit': g_exit, 'eval': g_eval, 'eval_disp': g_eval_disp}
